@@ -348,8 +348,7 @@ func (s *seqRT) ruleIterString() {
 	//  (b) a single-byte fast path: the path condition establishes str[pos] < utf8.RuneSelf, nothing is
 	//      called, pos' = pos + 1, key = old pos, value = rune(str[pos]).
 	// The paths partition the inputs, so together with the single exhausted path this is Go's range over a string.
-	var pf string
-	var ps Sym
+	var posExpr AV
 	decodePaths, fastPaths := 0, 0
 	for _, adv := range advs {
 		var calls []*Event
@@ -419,21 +418,26 @@ func (s *seqRT) ruleIterString() {
 				P = ae.Args[1]
 			}
 		}
-		var isSym bool
-		ps, isSym = P.(Sym)
-		if !isSym || !strings.HasPrefix(ps.Name, "F:") {
-			c.bad(rule, "seq."+ctor+" decode", pos, "decoder is not applied to the remaining bytes str[pos:] with pos a field of the iterator; got argument "+canon(arg))
+		// the position is an expression over the iterator's own integer fields (one field, or e.g. idx+width)
+		posOK := P != nil
+		for n := range fieldSyms(P) {
+			if n == opField {
+				posOK = false
+			}
+		}
+		if !posOK || len(fieldSyms(P)) == 0 {
+			c.bad(rule, "seq."+ctor+" decode", pos, "decoder is not applied to the remaining bytes str[pos:] with pos computed from the iterator's position fields; got argument "+canon(arg))
 			return
 		}
-		pf = strings.TrimPrefix(ps.Name, "F:")
+		posExpr = P
 		rv := fmt.Sprintf("ret:%s#", dec.Name())
-		gotNext := canon(after.Fields[pf])
+		// the same expression evaluated on the fields after the advance
+		Pnext := substFields(P, after.Fields)
+		gotNext := canon(Pnext)
 		var r0, r1 string
-		if e, ok := after.Fields[pf].(Expr); ok && e.Op == "+" {
-			for _, a := range e.Args {
-				if sy, ok := a.(Sym); ok && strings.HasPrefix(sy.Name, rv) && strings.HasSuffix(sy.Name, "#1") {
-					r1 = canon(sy)
-				}
+		for n := range allSyms(Pnext) {
+			if strings.HasPrefix(n, rv) && strings.HasSuffix(n, "#1") {
+				r1 = "⟨" + n + "⟩"
 			}
 		}
 		if r1 == "" {
@@ -441,11 +445,11 @@ func (s *seqRT) ruleIterString() {
 			return
 		}
 		r0 = strings.TrimSuffix(r1, "#1⟩") + "#0⟩"
-		wantNext := canon(Expr{Op: "+", Args: []AV{ps, Sym{Name: strings.Trim(r1, "⟨⟩")}}})
+		wantNext := canon(Expr{Op: "+", Args: []AV{P, Sym{Name: strings.Trim(r1, "⟨⟩")}}})
 		c.check(gotNext == wantNext, rule, "seq."+ctor+" advance", pos, "pos' = pos + width returned by the decoder", "expected pos' = "+wantNext+"; got "+gotNext)
-		c.check(k == canon(ps) && v == r0, rule, "seq."+ctor+" Current after advance", s.w.FnPos(info.current),
+		c.check(k == canon(P) && v == r0, rule, "seq."+ctor+" Current after advance", s.w.FnPos(info.current),
 			"Key is the byte offset the rune was decoded at, Val the decoded rune",
-			"expected Key = "+canon(ps)+" (offset before the advance) and Val = "+r0+"; got Key = "+k+", Val = "+v)
+			"expected Key = "+canon(P)+" (offset before the advance) and Val = "+r0+"; got Key = "+k+", Val = "+v)
 		decodePaths++
 	}
 	if decodePaths == 0 {
@@ -453,7 +457,7 @@ func (s *seqRT) ruleIterString() {
 		return
 	}
 	// stop condition
-	wantStop := "<=(len(⟨F:" + opField + "⟩),⟨F:" + pf + "⟩)"
+	wantStop := "<=(len(⟨F:" + opField + "⟩)," + canon(posExpr) + ")"
 	gotStop := ""
 	for _, cd := range stop.St.Conds {
 		gotStop = condCanon(cd)
@@ -465,13 +469,89 @@ func (s *seqRT) ruleIterString() {
 		}
 	}
 	_ = fastPaths
-	// base: position starts at 0
-	b0 := baseObj.Fields[pf]
-	n0, isInt := asInt(b0)
-	if b0 == nil {
-		n0, isInt = 0, true
+	// base: position starts at 0 (the position expression evaluated on the freshly constructed iterator)
+	n0, isInt := evalIntExpr(posExpr, baseObj.Fields)
+	c.check(isInt && n0 == 0, rule, "seq."+ctor+" initial position", s.w.FnPos(info.ctor), "decoding starts at byte offset 0", "initial position is "+canon(substFields(posExpr, baseObj.Fields)))
+}
+
+// fieldSyms: names of the iterator fields (symbols "F:<name>") occurring in v.
+func fieldSyms(v AV) map[string]bool {
+	out := map[string]bool{}
+	for n := range allSyms(v) {
+		if strings.HasPrefix(n, "F:") {
+			out[strings.TrimPrefix(n, "F:")] = true
+		}
 	}
-	c.check(isInt && n0 == 0, rule, "seq."+ctor+" initial position", s.w.FnPos(info.ctor), "decoding starts at byte offset 0", "initial position is "+canon(b0))
+	return out
+}
+
+func allSyms(v AV) map[string]bool {
+	out := map[string]bool{}
+	var walk func(AV)
+	walk = func(v AV) {
+		switch x := v.(type) {
+		case Sym:
+			out[x.Name] = true
+		case Expr:
+			for _, a := range x.Args {
+				walk(a)
+			}
+		case Dyn:
+			walk(x.V)
+		}
+	}
+	walk(v)
+	return out
+}
+
+// substFields replaces every field symbol F:<name> by the field's value.
+func substFields(v AV, fields map[string]AV) AV {
+	switch x := v.(type) {
+	case Sym:
+		if strings.HasPrefix(x.Name, "F:") {
+			if f, ok := fields[strings.TrimPrefix(x.Name, "F:")]; ok && f != nil {
+				return f
+			}
+			return mkInt(0) // a field the constructor leaves out holds its zero value
+		}
+		return x
+	case Expr:
+		args := make([]AV, len(x.Args))
+		for i, a := range x.Args {
+			args[i] = substFields(a, fields)
+		}
+		return Expr{Op: x.Op, Args: args}
+	}
+	return v
+}
+
+// evalIntExpr folds an expression of integer constants, field symbols and + / -.
+func evalIntExpr(v AV, fields map[string]AV) (int64, bool) {
+	v = substFields(v, fields)
+	var ev func(AV) (int64, bool)
+	ev = func(v AV) (int64, bool) {
+		switch x := v.(type) {
+		case nil:
+			return 0, true
+		case Zero:
+			return 0, true
+		case Const:
+			return asInt(x)
+		case Expr:
+			if (x.Op == "+" || x.Op == "-") && len(x.Args) == 2 {
+				a, ok1 := ev(x.Args[0])
+				b, ok2 := ev(x.Args[1])
+				if ok1 && ok2 {
+					if x.Op == "+" {
+						return a + b, true
+					}
+					return a - b, true
+				}
+			}
+		}
+		return 0, false
+	}
+	return ev(v)
 }
 
 func (s *seqRT) ruleIterMap() {
@@ -499,9 +579,31 @@ func (s *seqRT) ruleIterMap() {
 		}
 	}
 	good := len(calls) == 2 && strings.HasSuffix(calls[0], "reflect.ValueOf") && strings.HasSuffix(calls[1], "MapRange") && itField != ""
+	if !good {
+		// equivalent: a MapIter held by value and initialised with Reset(reflect.ValueOf(m))
+		var evs []Event
+		for _, e := range info.base.Events {
+			if e.Kind == "call" {
+				evs = append(evs, e)
+			}
+		}
+		if len(evs) == 2 && len(calls) == 2 && evs[0].Fn != nil && evs[0].Fn.Name() == "ValueOf" && evs[1].Fn != nil && evs[1].Fn.Name() == "Reset" &&
+			strings.Contains(fnPkgPath(evs[1].Fn), "reflect") && len(evs[1].Args) == 2 && sameAV(evs[1].Args[1], evs[0].Ret) {
+			if fr, ok := evs[1].Args[0].(FieldRef); ok && sameAV(fr.Base, info.obj) {
+				itField, good = fr.Field, true
+			}
+		}
+	}
+	isIterRecv := func(a AV) bool {
+		if canon(a) == "⟨F:"+itField+"⟩" {
+			return true
+		}
+		fr, ok := a.(FieldRef)
+		return ok && fr.Field == itField
+	}
 	if !c.check(good, rule, "seq."+ctor+" constructor", s.w.FnPos(info.ctor),
 		"iterates the live map through reflect.ValueOf(m).MapRange() (no snapshot of keys: entries deleted before being reached are skipped, like Go's range)",
-		"expected the constructor to be exactly reflect.ValueOf(m).MapRange(); got: "+strings.Join(calls, " ; ")+" "+info.base.Render(info.obj)) {
+		"expected the constructor to be exactly reflect.ValueOf(m).MapRange() (or a MapIter reset to reflect.ValueOf(m)); got: "+strings.Join(calls, " ; ")+" "+info.base.Render(info.obj)) {
 		return
 	}
 	st, r := info.symbolicObj()
@@ -514,7 +616,7 @@ func (s *seqRT) ruleIterMap() {
 				evs = append(evs, e)
 			}
 		}
-		okNext = len(evs) == 1 && evs[0].Kind == "call" && evs[0].Fn != nil && evs[0].Fn.Name() == "Next" && len(evs[0].Args) == 1 && canon(evs[0].Args[0]) == "⟨F:"+itField+"⟩" &&
+		okNext = len(evs) == 1 && evs[0].Kind == "call" && evs[0].Fn != nil && evs[0].Fn.Name() == "Next" && len(evs[0].Args) == 1 && isIterRecv(evs[0].Args[0]) &&
 			len(outs[0].Ret) == 1 && sameAV(outs[0].Ret[0], evs[0].Ret)
 	}
 	c.check(okNext, rule, "seq."+ctor+" MoveNext", s.w.FnPos(info.moveNext), "exactly one call of (*reflect.MapIter).Next on the iterator's own MapIter, result returned", "MoveNext must be exactly `return iter.Next()`")
@@ -541,7 +643,7 @@ func (s *seqRT) ruleIterMap() {
 			}
 			switch e.Fn.Name() {
 			case "Key", "Value":
-				if canon(e.Args[0]) == "⟨F:"+itField+"⟩" {
+				if isIterRecv(e.Args[0]) {
 					src[canon(e.Ret)] = e.Fn.Name()
 				}
 			case "Interface":
